@@ -1,6 +1,6 @@
 (* C14 — correspondence cases: the implementation's observation is part of each case; check_corr compares it with
    the model (and with the translated kernel), check_spec evaluates the property's own specification on it. *)
-From Coq Require Import ZArith QArith Qround Bool List.
+From Coq Require Import ZArith QArith Qround Qabs Bool List.
 Require Import QV.common.Util QV.common.Ctl QV.C14.Gen_numeric QV.C14.Gen_rational QV.C14.Model QV.C14.Dispatch QV.C14.HashModel QV.C14.Float64.
 Import ListNotations.
 
@@ -21,6 +21,12 @@ Inductive case :=
 | CCons (t : Q) (other : operand) (fwd rev : cmp6) (h_t h_o : Z) (in_list dict_hit : bool)
     (* round 4: all six comparisons `t op other` (fwd) and `other op t` (rev) on the same pair, hash(t), hash(other),
        `t in [other]`, `t in {other: 1}` *)
+| CPowNI (a : Q) (en : Z) (ed : positive) (r : Q) (exact_type : bool)
+    (* round 5: power with a NON-integral exponent en/ed (either operand order): r = the value returned, exact_type = the
+       result claims to be exact (TimeType / mpq / Fraction / int) rather than a floating-point number *)
+| CSeq (cs : list case)
+    (* round 5: a history -- the steps were executed one after the other in one process; every step must be judged as if
+       it had been executed alone (no state may be left behind by an earlier call) *)
 | CCrash.   (* the implementation crashed with an unexpected exception or did not return *)
 
 Definition cmp6_eqb (a b : cmp6) : bool :=
@@ -43,7 +49,7 @@ Definition bres_eqb (a b : bres) : bool :=
   | _, _ => false
   end.
 
-Definition check_corr (c : case) : bool :=
+Fixpoint check_corr (c : case) : bool :=
   match c with
   | CApproxInt a d den impl =>
       outcome_eqb zz_eqb (approx_int_p a d den) impl
@@ -66,6 +72,8 @@ Definition check_corr (c : case) : bool :=
   | CCons t o fwd rev ht ho _ _ =>
       cmp6_eqb (time_cmp6 t o false) fwd && cmp6_eqb (time_cmp6 t o true) rev
       && (pyhash_Q t =? ht)%Z && (pyhash_Q (cmp_value o) =? ho)%Z
+  | CPowNI _ _ _ _ exact_type => negb exact_type      (* the code hands a non-integral exponent to mpq ** mpq: an mpfr *)
+  | CSeq cs => forallb check_corr cs                   (* the model has no state *)
   | CCrash => false
   end.
 
@@ -98,7 +106,14 @@ Definition best_in (x e : Q) (p q : Z) : bool :=
   | _ => false
   end.
 
-Definition check_spec (c : case) : bool :=
+(* a^(en/ed) for a non-integral exponent is in general irrational: the result must approximate it (|r^ed - a^en| <=
+   2^-40 * a^en, a >= 0) and may claim to be exact only if it is (r^ed == a^en) *)
+Definition pow_ni_ok (a : Q) (en : Z) (ed : positive) (r : Q) (exact_type : bool) : bool :=
+  let lhs := Qpower r (Zpos ed) in
+  let rhs := Qpower a en in
+  Qle_bool 0 a && Qle_bool (Qabs (lhs - rhs)) (rhs * (1 # 1099511627776)) && (negb exact_type || Qeq_bool lhs rhs).
+
+Fixpoint check_spec (c : case) : bool :=
   match c with
   | CApproxInt a d den impl =>
       (* precondition of the kernel as used by approximate_rational: 0 < d <= a < den *)
@@ -113,7 +128,7 @@ Definition check_spec (c : case) : bool :=
       | Zpos xq', Zpos dq' =>
           if (dp <=? 0)%Z then match impl with OFail => true | _ => false end
           else match impl with
-               | ORet (p, q) => if (xq =? 1)%Z then zz_eqb (p, q) (xp, 1%Z) else best_in (xp # xq') (dp # dq') p q
+               | ORet (p, q) => best_in (xp # xq') (dp # dq') p q     (* integral x included: x itself has denominator 1 *)
                | _ => false
                end
       | _, _ => true
@@ -133,8 +148,7 @@ Definition check_spec (c : case) : bool :=
           else if negb (Qle_bool tol 1) then outcome_eqb Qeq_bool impl OFail
           else match impl with
                | ORet r => let r' := Qred r in
-                           if (Zpos (Qden (Qred e)) =? 1)%Z then Qeq_bool r e
-                           else best_in e tol (Qnum r') (Zpos (Qden r')) && (Pos.eqb (Qden r) (Qden r'))
+                           best_in e tol (Qnum r') (Zpos (Qden r')) && (Pos.eqb (Qden r) (Qden r'))
                | _ => false
                end
       end
@@ -166,5 +180,7 @@ Definition check_spec (c : case) : bool :=
          containers *)
       && cmp6_consistent fwd && cmp6_consistent rev && cmp6_mirror fwd rev
       && implb (c_eq fwd) (ht =? ho)%Z && Bool.eqb in_list (c_eq fwd) && Bool.eqb dict_hit (c_eq fwd)
+  | CPowNI a en ed r exact_type => pow_ni_ok a en ed r exact_type
+  | CSeq cs => forallb check_spec cs
   | CCrash => false
   end.
